@@ -216,7 +216,7 @@ def shrink_line(line, fails0, max_steps=400, keep=0):
             chunk //= 2
     # shrink numbers
     for idx in range(len(body)):
-        for m in list(re.finditer(r"\d+", body[idx])):
+        for m in reversed(list(re.finditer(r"\d+", body[idx]))):
             val = int(m.group(0))
             for cand_val in (0, 1, val // 2, val - 1):
                 if cand_val < 0 or cand_val >= val or steps >= max_steps * 2:
